@@ -159,6 +159,7 @@ Plan generate(uint64_t seed, const std::string& focus) {
     nk.write_block_p = r.pick<double>({0.0, 0.3, 0.6, 1.0});
     nk.short_write_p = r.pick<double>({0.0, 0.0, 0.1, 0.3});
     nk.seg_split_p = r.pick<double>({0.0, 0.2, 0.5});
+    nk.coalesce_b2c = r.chance(0.3);
     nk.chunk_mode = (int)r.pick<int>({-1, -1, 0, 1, 2});
     nk.connect_lat_max = r.pick<ns_t>({0, 5 * MS, 20 * MS, 500 * MS});
     k.resolve_delay_max = r.pick<ns_t>({0, 1 * MS, 5 * MS, 300 * MS});
@@ -394,6 +395,7 @@ Plan generate_diff(uint64_t seed) {
     auto& nk = k.net;
     nk.lat_min = nk.lat_max = 0; nk.write_done_max = 0; nk.write_done_zero_p = 1.0; nk.short_write_p = 0; nk.seg_split_p = 0; nk.connect_lat_max = 0;
     nk.chunk_mode = 0;
+    nk.coalesce_b2c = true;                // the whole burst travels in one segment
     auto& bk = k.broker;
     bk.ack_delay_max = 0; bk.ack_zero_p = 1.0; bk.short_form_p = 0.3; bk.hostile = true;
     int id = 1;
